@@ -9,7 +9,7 @@ git -C /repo worktree add --detach $W HEAD -q || exit 2
 git -C $W apply /verif/seeded/$id-$n/patch.diff || { echo "PATCH DOES NOT APPLY"; git -C /repo worktree remove --force $W; exit 2; }
 cp evidence/$id.json /tmp/st-$id-ev.json 2>/dev/null
 ls replay > /tmp/st-$id-before.txt
-VERIF_REPO=$W ./check $id quick 2>&1 | grep -E "^property=|VIOLATION|INCONCL|rapid\] (failed|panic)" | cut -c1-300 | head -5
+VERIF_NO_EVIDENCE=1 VERIF_REPO=$W ./check $id quick 2>&1 | grep -E "^property=|VIOLATION|INCONCL|rapid\] (failed|panic)" | cut -c1-300 | head -5
 cp /tmp/st-$id-ev.json evidence/$id.json 2>/dev/null; rm -f /tmp/st-$id-ev.json
 git -C /repo worktree remove --force $W
 # remove only the replay files this run created
